@@ -272,6 +272,17 @@ func TestVerifC10Composer(t *testing.T) {
 			// judge is one that reaches composition. Two fault-free reconciles of an *empty* probe are
 			// not possible here, so we simply judge the first reconcile that composes.
 			before := sc.composedFor(env, xrUID)
+			// names already recorded in spec.resourceRefs (by position): with anonymous templates a recorded
+			// name is reused even if its resource was never created, so no name is generated for it; reads of
+			// such names (template association, the applicator's Get) are not name-availability lookups.
+			refsBefore := make([]string, len(sc.Templates))
+			recorded := map[string]bool{}
+			for i := range sc.Templates {
+				refsBefore[i] = refNameAt(env, i)
+			}
+			for kn := range refNames(env.Sim.Get(env.XRKey(xrName))) {
+				recorded[kn[strings.Index(kn, "/")+1:]] = true
+			}
 			logStart := env.Sim.LogLen()
 			plan := map[int]verifsim.Fault{}
 			nameFailed := map[string]bool{}
@@ -284,7 +295,7 @@ func TestVerifC10Composer(t *testing.T) {
 				env.Sim.Restore(snap)
 				nth := 0
 				for i, call := range probe.Calls {
-					if strings.HasPrefix(call, "get example.org/Kind") && isNameLookup(call, before) {
+					if strings.HasPrefix(call, "get example.org/Kind") && isNameLookup(call, before) && !recorded[call[strings.LastIndex(call, "/")+1:]] {
 						if nth == sc.NameFaultNth {
 							plan[i] = verifsim.Fault{Kind: verifsim.ErrBefore, Err: "server"}
 						}
@@ -312,8 +323,11 @@ func TestVerifC10Composer(t *testing.T) {
 			// the first template (in order) that needs a generated name and has no existing resource.
 			if len(plan) > 0 {
 				nth := 0
-				for _, tp := range sc.Templates {
+				for ti, tp := range sc.Templates {
 					if _, exists := before[tp.Name]; exists || tp.Fixed {
+						continue
+					}
+					if sc.Anonymous && refsBefore[ti] != "" {
 						continue
 					}
 					if nth == sc.NameFaultNth {
